@@ -213,6 +213,22 @@ impl H {
             H::MFU(_) => "MFU",
         }
     }
+    pub fn layout(&self) -> multiqueue2::verif_hooks::Layout {
+        match self {
+            H::BS(x) => x.verif_layout(),
+            H::BR(x) => x.verif_layout(),
+            H::BU(x) => x.verif_layout(),
+            H::BFS(x) => x.verif_layout(),
+            H::BFR(x) => x.verif_layout(),
+            H::BFU(x) => x.verif_layout(),
+            H::MS(x) => x.verif_layout(),
+            H::MR(x) => x.verif_layout(),
+            H::MU(x) => x.verif_layout(),
+            H::MFS(x) => x.verif_layout(),
+            H::MFR(x) => x.verif_layout(),
+            H::MFU(x) => x.verif_layout(),
+        }
+    }
     pub fn is_sender(&self) -> bool {
         matches!(self, H::BS(_) | H::BFS(_) | H::MS(_) | H::MFS(_))
     }
@@ -391,6 +407,40 @@ pub struct Shared {
     /// handles returned by finished threads (for the epilogue)
     pub leftovers: Vec<Slot>,
     pub panics: Vec<String>,
+    /// address -> symbolic word name
+    pub names: HashMap<usize, String>,
+}
+
+impl Shared {
+    /// record the names of the words behind a handle
+    pub fn bind(&mut self, h: &H, gid: usize, stream: usize) {
+        let l = h.layout();
+        let n = &mut self.names;
+        n.entry(l.head).or_insert("head".into());
+        n.entry(l.tail_cache).or_insert("tc".into());
+        n.entry(l.writers).or_insert("writers".into());
+        n.entry(l.readers).or_insert("readers".into());
+        n.entry(l.signal).or_insert("signal".into());
+        n.entry(l.epoch).or_insert("epoch".into());
+        n.entry(l.mem_manager).or_insert("mxmgr".into());
+        n.entry(l.wait_to_free).or_insert("mxwtf".into());
+        if l.wait != 0 {
+            n.entry(l.wait).or_insert("cwait".into());
+            n.entry(l.prod_wait).or_insert("pwait".into());
+        }
+        for i in 0..l.capacity {
+            n.entry(l.data + i * l.data_stride + l.wraps_off).or_insert(format!("tag.{}", i));
+            n.entry(l.data + i * l.data_stride + l.val_off).or_insert(format!("val.{}", i));
+            n.entry(l.refs + i * l.refs_stride + l.refcnt_off).or_insert(format!("ref.{}", i));
+        }
+        if l.token != 0 {
+            n.insert(l.token, format!("tok.{}", gid));
+        }
+        if l.pos != 0 {
+            n.insert(l.pos, format!("pos.{}", stream));
+            n.insert(l.meta, format!("ncons.{}", stream));
+        }
+    }
 }
 
 pub struct Ctx {
@@ -468,12 +518,14 @@ impl Ctx {
         self.now()
     }
 
-    fn new_slot(&mut self, h: H, stream: usize) -> usize {
-        let gid = {
-            let mut g = self.shared.lock().unwrap();
-            g.next_gid += 1;
-            g.next_gid - 1
-        };
+    fn alloc_gid(&self) -> usize {
+        let mut g = self.shared.lock().unwrap();
+        g.next_gid += 1;
+        g.next_gid - 1
+    }
+
+    fn new_slot(&mut self, h: H, stream: usize, gid: usize) -> usize {
+        self.shared.lock().unwrap().bind(&h, gid, stream);
         self.slots.push(Slot { h: Some(h), gid, stream });
         gid
     }
@@ -590,6 +642,7 @@ impl Ctx {
         let mut vid: Option<u64> = None;
         let mut new_gid: Option<usize> = None;
         let mut viol: Option<String> = None;
+        let mut hold: Vec<P> = Vec::new();
         let optext = op.text().split(' ').next().unwrap().to_string();
         // values are created before the call begins so that the payload constructor is outside
         let payload = match op {
@@ -601,7 +654,28 @@ impl Ctx {
             }
             _ => None,
         };
-        let t0 = self.begin(format!("{} g{} {} s{}{}", optext, gid, hkind, stream, vid.map(|v| format!(" v{}", v)).unwrap_or_default()));
+        // ids of handles / streams this call will create are fixed before it starts
+        let mut pre_gid: Option<usize> = None;
+        let mut pre_stream: Option<usize> = None;
+        match op {
+            Op::Clone(_) => pre_gid = Some(self.alloc_gid()),
+            Op::AddStream(_) => {
+                pre_gid = Some(self.alloc_gid());
+                pre_stream = Some(self.new_stream());
+            }
+            Op::IntoMulti(_) if hkind == "BFU" || hkind == "MFU" => pre_stream = Some(self.new_stream()),
+            _ => {}
+        }
+        let t0 = self.begin(format!(
+            "{} g{} {} s{}{}{}{}",
+            optext,
+            gid,
+            hkind,
+            stream,
+            vid.map(|v| format!(" v{}", v)).unwrap_or_default(),
+            pre_gid.map(|v| format!(" ng{}", v)).unwrap_or_default(),
+            pre_stream.map(|v| format!(" ns{}", v)).unwrap_or_default()
+        ));
         let notify = self.notify.clone();
         let task_id = self.task_id;
         let res: String = {
@@ -624,6 +698,7 @@ impl Ctx {
                         if let Some(m) = check_returned(&b, "try_send error") {
                             viol = Some(m);
                         }
+                        hold.push(b);
                     }
                     t
                 }
@@ -640,12 +715,14 @@ impl Ctx {
                             if b.vid != vid.unwrap() {
                                 viol = Some(format!("C15 start_send NotReady handed back v{} for v{}", b.vid, vid.unwrap()));
                             }
+                            hold.push(b);
                             "notready".into()
                         }
                         Err(e) => {
                             if e.0.vid != vid.unwrap() {
                                 viol = Some(format!("C15 start_send Err handed back v{} for v{}", e.0.vid, vid.unwrap()));
                             }
+                            hold.push(e.0);
                             "err".into()
                         }
                     }
@@ -678,6 +755,7 @@ impl Ctx {
                         Ok(Ok(p)) => {
                             vid = Some(p.vid);
                             viol = check_returned(&p, "try_recv");
+                            hold.push(p);
                             "ok".into()
                         }
                         Ok(Err(v)) => {
@@ -704,6 +782,7 @@ impl Ctx {
                         Ok(Ok(p)) => {
                             vid = Some(p.vid);
                             viol = check_returned(&p, "recv");
+                            hold.push(p);
                             "ok".into()
                         }
                         Ok(Err(v)) => {
@@ -754,6 +833,7 @@ impl Ctx {
                         Ok(Async::Ready(Some(Ok(p)))) => {
                             vid = Some(p.vid);
                             viol = check_returned(&p, "poll");
+                            hold.push(p);
                             "some".into()
                         }
                         Ok(Async::Ready(Some(Err(v)))) => {
@@ -777,7 +857,7 @@ impl Ctx {
                         H::MFR(r) => H::MFR(r.clone()),
                         _ => return self.bad(t0),
                     };
-                    let g = self.new_slot(nh, stream);
+                    let g = self.new_slot(nh, stream, pre_gid.unwrap());
                     new_gid = Some(g);
                     format!("new g{}", g)
                 }
@@ -789,8 +869,8 @@ impl Ctx {
                         H::MFU(r) => H::MFU(r.add_stream_with(view_fn())),
                         _ => return self.bad(t0),
                     };
-                    let st = self.new_stream();
-                    let g = self.new_slot(nh, st);
+                    let st = pre_stream.unwrap();
+                    let g = self.new_slot(nh, st, pre_gid.unwrap());
                     new_gid = Some(g);
                     format!("new g{} s{}", g, st)
                 }
@@ -871,18 +951,20 @@ impl Ctx {
                         }
                         // the futures variants create a NEW stream and drop the old handle
                         H::BFU(r) => {
-                            let n = r.into_multi();
-                            let st = self.new_stream();
+                            let n = H::BFR(r.into_multi());
+                            let st = pre_stream.unwrap();
+                            self.shared.lock().unwrap().bind(&n, gid, st);
                             let slot = &mut self.slots[hidx];
-                            slot.h = Some(H::BFR(n));
+                            slot.h = Some(n);
                             slot.stream = st;
                             format!("multi s{}", st)
                         }
                         H::MFU(r) => {
-                            let n = r.into_multi();
-                            let st = self.new_stream();
+                            let n = H::MFR(r.into_multi());
+                            let st = pre_stream.unwrap();
+                            self.shared.lock().unwrap().bind(&n, gid, st);
                             let slot = &mut self.slots[hidx];
-                            slot.h = Some(H::MFR(n));
+                            slot.h = Some(n);
                             slot.stream = st;
                             format!("multi s{}", st)
                         }
@@ -900,6 +982,7 @@ impl Ctx {
             steps = s.inner.lock().unwrap().threads[tid].call_steps;
             s.call_end(format!("{}{}", res, vid.map(|v| format!(" v{}", v)).unwrap_or_default()));
         }
+        drop(hold);
         let t1 = self.now();
         let mut g = self.shared.lock().unwrap();
         if let Some(v) = viol {
